@@ -8,6 +8,12 @@ from . import c14
 ID = "C08"
 MODEL = "CLIENT"
 PROP_MODULES = ["WV.Props.ClientSkel", "WV.Props.C08"]
+# translation validation of the control machines' method bodies against WV.Client (tools/extract.py::extract_pyir ->
+# WV/Gen/PyIR.lean; agents/deepPyIR2_integration.md): part of the check as soon as the modules are installed
+import os as _os
+PROP_MODULES += ["WV.Props." + _m for _m in ("PyIR_Client", "PyIR_Client_Boss", "PyIR_Client_Glue")
+                 if _os.path.exists(_os.path.join(_os.path.dirname(_os.path.abspath(__file__)), "..", "..", "lean", "WV",
+                                                  "Props", _m + ".lean"))]
 NATIVE_DECIDE_MODULES = ["WV.Proofs.ClientCert"]
 TRUSTED = c14.TRUSTED
 RULE = ("guided random schedules of the mailbox World as for C14, each followed by a cooperative completion phase "
